@@ -1,7 +1,7 @@
 (* Proofs/MemFsNoop.v — a failed call changes nothing: if a well-formed call on a WF state returns
    an error (or would panic), the path map and every node are exactly what they were. *)
 From AF Require Import Lib.Bytes Lib.Path Lib.Ops Gen.Consts Model.MemFile Model.MemFs Model.WfOps
-  Proofs.BytesLemmas Proofs.MemFsPath Proofs.MemFsBasics Proofs.MemFsWF Proofs.MemFsStep Proofs.MemFsRename.
+  Proofs.BytesLemmas Proofs.MemFsPath Proofs.MemFsBasics Proofs.MemFsWF Proofs.MemFsStep Proofs.MemFsRename Proofs.MemFsBelow.
 Local Open Scope Z_scope.
 
 Lemma f_write_err data h b : res_is_err (snd (f_write data h b)) = true -> fst (fst (f_write data h b)) = None.
@@ -37,12 +37,13 @@ Proof. intros Hc Hl. now rewrite (set_file_mode_canon s k m f Hc Hl). Qed.
 Lemma failed_raw s o : WF s -> wf_op s o = true ->
   res_is_err (snd (m_step_raw s o)) = true -> fs_view (fst (m_step_raw s o)) = fs_view s.
 Proof.
-  intros W Hwf. destruct o; cbn [m_step_raw].
+  intros W Hwf. apply wf_op_cases in Hwf as [Hwf | Hb]; [|now rewrite (below_raw s o W Hb)].
+  destruct o; cbn [m_step_raw].
   - (* Create *) unfold m_create. cbv zeta.
     match goal with |- context [match ?x with Some _ => _ | None => (s, RErr _) end] => destruct x as [[s1 f]|] end.
     + destruct (alloc_handle s1 _) as [s2 h]. discriminate.
     + reflexivity.
-  - (* Mkdir *) cbn [wf_op] in Hwf. apply andb_true_iff in Hwf as [Hn Hwf].
+  - (* Mkdir *) cbn [wf_op_ord] in Hwf. apply andb_true_iff in Hwf as [Hn Hwf].
     destruct (lookup s (normalize_path p)) as [f|] eqn:Hl.
     + unfold m_mkdir. rewrite Hl. reflexivity.
     + assert (Hc0 : canon (normalize_path p)) by now apply canon_normalize.
@@ -52,7 +53,7 @@ Proof.
         as (q & Hq & -> & W'); auto.
       rewrite (set_file_mode_ok _ k _ (length (mheap s)) Hc); [discriminate|].
       rewrite lookup_upd, lookup_put_new, beqb_refl. reflexivity.
-  - (* MkdirAll *) cbn [wf_op] in Hwf. apply andb_true_iff in Hwf as [Hn Hwf].
+  - (* MkdirAll *) cbn [wf_op_ord] in Hwf. apply andb_true_iff in Hwf as [Hn Hwf].
     unfold m_mkdirall. destruct (lookup s (normalize_path p)) as [f|] eqn:Hl.
     + unfold m_mkdir. rewrite Hl. cbn. discriminate.
     + assert (Hc0 : canon (normalize_path p)) by now apply canon_normalize.
@@ -63,7 +64,7 @@ Proof.
         pose proof (set_file_mode_canon a b c (length (mheap s)) Hc) as E end.
       rewrite E; [discriminate|]. apply (rf_keep _ _ _ _ F). rewrite lookup_put_new, beqb_refl. reflexivity.
   - (* Open *) unfold m_open. destruct (lookup s (normalize_path p)); [discriminate | reflexivity].
-  - (* OpenFile *) cbn [wf_op] in Hwf. apply andb_true_iff in Hwf as [Hn Hwf]. apply andb_true_iff in Hn as [Hn _].
+  - (* OpenFile *) cbn [wf_op_ord] in Hwf. apply andb_true_iff in Hwf as [Hn Hwf]. apply andb_true_iff in Hn as [Hn _].
     set (k := normalize_path p) in *. assert (Hc : canon k) by now apply canon_normalize.
     unfold m_openfile. fold k.
     assert (Hdead : flag_has flag o_trunc && flag_has flag (Z.lor o_rdwr o_wronly) && (Z.land flag memfs_access_mask =? 0) = false).
@@ -85,12 +86,12 @@ Proof.
           rewrite ?lookup_upd, lookup_put_new, beqb_refl; reflexivity. }
       destruct (alloc_handle s2 hh) as [s3 h]. cbn [fst] in Hl3.
       rewrite (set_file_mode_canon s3 k _ _ Hc Hl3). discriminate.
-  - (* Remove *) cbn [wf_op] in Hwf. apply andb_true_iff in Hwf as [Hn Hwf]. apply andb_true_iff in Hn as [Hn Hroot].
+  - (* Remove *) cbn [wf_op_ord] in Hwf. apply andb_true_iff in Hwf as [Hn Hwf]. apply andb_true_iff in Hn as [Hn Hroot].
     set (k := normalize_path p) in *. apply negb_true_iff, beqb_neq in Hroot.
     unfold m_remove. fold k. destruct (lookup s k) as [f|] eqn:Hl; [|reflexivity].
     destruct (GWF_unregister kempty kempty kempty s k f W Hl (WF_fresh s k f W Hl) Hroot) as (q & qn & _ & _ & _ & Hun & _); [intros [] | intros [] |].
     rewrite Hun. discriminate.
-  - (* RemoveAll *) cbn [wf_op] in Hwf. apply andb_true_iff in Hwf as [Hn Hwf]. apply andb_true_iff in Hn as [Hn Hroot].
+  - (* RemoveAll *) cbn [wf_op_ord] in Hwf. apply andb_true_iff in Hwf as [Hn Hwf]. apply andb_true_iff in Hn as [Hn Hroot].
     set (k := normalize_path p) in *. assert (Hc : canon k) by now apply canon_normalize. apply negb_true_iff, beqb_neq in Hroot.
     unfold m_removeall. fold k. destruct (lookup s k) as [f|] eqn:Hl.
     + destruct (GWF_unregister kempty kempty kempty s k f W Hl (WF_fresh s k f W Hl) Hroot) as (q & qn & _ & _ & _ & Hun & _); [intros [] | intros [] |].
@@ -100,9 +101,9 @@ Proof.
   - (* Rename *) destruct (WF_rename s p q W Hwf) as [_ Hok].
     destruct (lookup s (normalize_path p)) as [f|] eqn:Hl.
     + rewrite Hok by congruence. discriminate.
-    + unfold m_rename. rewrite Hl. reflexivity.
+    + unfold m_rename. rewrite Hl. match goal with |- context [if ?c then _ else _] => destruct c end; reflexivity.
   - (* Stat *) unfold m_stat. destruct (lookup s (normalize_path p)) as [f|]; [|reflexivity]. destruct (get_node s f); reflexivity.
-  - (* Chmod *) cbn [wf_op] in Hwf. apply andb_true_iff in Hwf as [Hn _].
+  - (* Chmod *) cbn [wf_op_ord] in Hwf. apply andb_true_iff in Hwf as [Hn _].
     unfold m_chmod. destruct (lookup s (normalize_path p)) as [f|] eqn:Hl; [|reflexivity].
     rewrite (set_file_mode_ok s _ _ f (canon_normalize p Hn) Hl). discriminate.
   - (* Chown *) unfold m_chown. destruct (lookup s (normalize_path p)); [discriminate | reflexivity].
